@@ -291,8 +291,9 @@ def _region_worker(args):
         return region, None, str(e), None, None
     obs = [_slim_ob(ob) for ob in I.obs.values()]
     info = {k: {kk: vv for kk, vv in v.items() if kk != 'node'} for k, v in (I.loop_info or {}).items()}
+    from .. import terms as _terms
     stats = {'steps': I.steps, 'max_states': I.max_states, 'functions': sorted(I.functions_seen), 'loops': info,
-             'extra': getattr(I, 'extra', None)}
+             'extra': getattr(I, 'extra', None), 'opaque': dict(_terms.OPAQUE_DEFS)}
     for st, v in outs:
         st.counter = [0]
     for v in info.values():
@@ -331,6 +332,10 @@ def run_regions(fs, regions=None, engine_cls=Engine, tracked=(TOS, OPC), extra=N
             raise AnalysisBroken('region %s: %s' % (region, err))
         results[region] = outs
         stats[region] = st_
+        if st_ and st_.get('opaque'):
+            from .. import terms as _terms
+            for k_, v_ in st_['opaque'].items():
+                _terms.OPAQUE_DEFS.setdefault(k_, v_)
         for o in ob:
             k = (o['kind'], o['fn'], o['file'], o['line'], o['col'], o['sym'])
             cur = obs.get(k)
